@@ -77,7 +77,7 @@ def check(program: Program, run: Run) -> None:
         tab = {}
         for joins, (fname, fval), foreign, upd in itertools.product((0, 1), from_shapes.items(), (0, 1), (0, 1)):
             attrs = dict(kinds["UPDATE" if upd else "SELECT"])
-            attrs.update({"_joins": Sym("nonempty", ("_joins",)) if joins else ListV((), "list"), "_from": fval,
+            attrs.update({"_joins": ListV((One(Obj(program.cls("JoinOn"), {}, "join0")),), "list") if joins else ListV((), "list"), "_from": fval,
                           "_foreign_table": Const(bool(foreign))})
             sk, _ = render(program, bc, attrs=attrs, ctx=CtxV.incoming(False))
             want_attr = "_updates" if upd else "_selects"
